@@ -780,6 +780,10 @@ def pair_rule(repo, ig, chk, rule):
 
 
 def run(repo, chk):
+    # ---------------------------------------------------------------- R-C01-2b the adjacency view follows edits of the links' ends (interpreted history on the fixture model); first, so that it decides on its own
+    from ._shared import adjacency_history_rules
+    adjacency_history_rules(repo, chk, "R-C01-2b")
+
     # ---------------------------------------------------------------- R-C01-1 balance rows
     sig_mb = {}
     for bname, dname, dictname in (("mass_balance_constraint", "expected_demand", "mass_balance"), ("pdd_mass_balance_constraint", "demand", "pdd_mass_balance")):
